@@ -4,8 +4,41 @@
 package rpc
 
 import (
+	"errors"
 	"github.com/hslam/code"
 )
+
+// errTruncated is returned by the header decoders for a frame that ends before a field does.
+var errTruncated = errors.New("rpc: truncated header")
+
+// varintSize returns the number of bytes of the varint at the start of b,
+// or 0 if b ends before the varint does.
+func varintSize(b []byte) uint64 {
+	for i := 0; i < len(b) && i < 9; i++ {
+		if b[i] < 0x80 {
+			return uint64(i) + 1
+		}
+	}
+	if len(b) >= 10 {
+		return 10
+	}
+	return 0
+}
+
+// fieldSize returns the size of the length-prefixed field (a varint length followed by
+// that many bytes) at the start of b, or 0 if b does not hold all of it.
+func fieldSize(b []byte) uint64 {
+	n := varintSize(b)
+	if n == 0 {
+		return 0
+	}
+	var l uint64
+	code.DecodeVarint(b, &l)
+	if l > uint64(len(b))-n {
+		return 0
+	}
+	return n + l
+}
 
 type request struct {
 	Seq           uint64
@@ -117,8 +150,14 @@ func (req *request) Marshal(buf []byte) ([]byte, error) {
 func (req *request) Unmarshal(data []byte) (uint64, error) {
 	var offset uint64
 	var n uint64
+	if varintSize(data[offset:]) == 0 {
+		return 0, errTruncated
+	}
 	n = code.DecodeVarint(data[offset:], &req.Seq)
 	offset += n
+	if fieldSize(data[offset:]) == 0 {
+		return 0, errTruncated
+	}
 	if data[offset] > 127 {
 		n = code.DecodeBytes(data[offset:], &req.Upgrade)
 	} else if data[offset] > 0 {
@@ -129,12 +168,18 @@ func (req *request) Unmarshal(data []byte) (uint64, error) {
 		n = 1
 	}
 	offset += n
+	if fieldSize(data[offset:]) == 0 {
+		return 0, errTruncated
+	}
 	if data[offset] > 0 {
 		n = code.DecodeString(data[offset:], &req.ServiceMethod)
 	} else {
 		n = 1
 	}
 	offset += n
+	if fieldSize(data[offset:]) == 0 {
+		return 0, errTruncated
+	}
 	if data[offset] > 127 {
 		n = code.DecodeBytes(data[offset:], &req.Args)
 	} else if data[offset] > 0 {
@@ -232,14 +277,23 @@ func (res *response) Marshal(buf []byte) ([]byte, error) {
 func (res *response) Unmarshal(data []byte) (uint64, error) {
 	var offset uint64
 	var n uint64
+	if varintSize(data[offset:]) == 0 {
+		return 0, errTruncated
+	}
 	n = code.DecodeVarint(data[offset:], &res.Seq)
 	offset += n
+	if fieldSize(data[offset:]) == 0 {
+		return 0, errTruncated
+	}
 	if data[offset] > 0 {
 		n = code.DecodeString(data[offset:], &res.Error)
 	} else {
 		n = 1
 	}
 	offset += n
+	if fieldSize(data[offset:]) == 0 {
+		return 0, errTruncated
+	}
 	if data[offset] > 127 {
 		n = code.DecodeBytes(data[offset:], &res.Reply)
 	} else if data[offset] > 0 {
